@@ -1,6 +1,7 @@
 package main
 
 import (
+	"net/url"
 	dto "github.com/prometheus/client_model/go"
 	"bufio"
 	"context"
@@ -117,7 +118,11 @@ func (x *c18) connect(group, id string) *stream {
 	}
 	x.cur[key] = s
 	x.smu.Unlock()
-	req, _ := nethttp.NewRequestWithContext(ctx, "GET", "http://"+x.addr+"/"+group+"/"+id, nil)
+	segs := strings.Split(id, "/")
+	for i := range segs {
+		segs[i] = url.PathEscape(segs[i])
+	}
+	req, _ := nethttp.NewRequestWithContext(ctx, "GET", "http://"+x.addr+"/"+url.PathEscape(group)+"/"+strings.Join(segs, "/"), nil)
 	ready := make(chan bool, 1)
 	go func() {
 		tr := &nethttp.Transport{DisableKeepAlives: true}
@@ -306,6 +311,10 @@ func runC18(c *runCtx, idx int, r *rand.Rand) {
 func (x *c18) churnScenario(r *rand.Rand, cfg *poll.Config, fail func(string, string, ...any)) {
 	groups := []string{"ga", "gb", "gc"}[:1+r.Intn(3)]
 	ids := []string{"i1", "i2", "i3", "i4"}[:1+r.Intn(4)]
+	if r.Intn(3) == 0 {
+		// ids that have to be percent-encoded on the wire, or contain slashes
+		ids = []string{"w 1", "a/b", "x%y", "i4"}[:1+r.Intn(4)]
+	}
 	unlimited := cfg.MaxConnections >= 1000
 	var wg sync.WaitGroup
 	var stop atomic.Bool
